@@ -17,6 +17,7 @@ import argparse
 import ast
 import json
 import os
+import re
 import sys
 from pathlib import Path
 from typing import Any, Dict, List, Optional, Tuple
@@ -362,6 +363,83 @@ def extract_guards(src: Path) -> str:
             fail("bufferPopLength", "`length = min(len(self.buffer), max_length)` not found")
     except Exception as e:
         fail("bufferPopRelease", str(e))
+    # StreamBuffer.complete (property) and the END_STREAM guard of H2Protocol._send_data
+    try:
+        tree = parse(src / "protocol/h2.py")
+        fn = find_def(tree, "StreamBuffer", "complete")
+        ret = [st for st in fn.body if isinstance(st, ast.Return)] if fn is not None else []  # type: ignore
+        if fn is None or len(fn.body) != 1 or not ret:  # type: ignore
+            fail("bufferComplete", "StreamBuffer.complete is not a single return")
+        else:
+            NAMES.clear()
+            NAMES.update({"self._complete": "flag", "len(self.buffer)": "len"})
+            out.append(f"def bufferComplete (flag : Bool) (len : Nat) : Bool :=\n  {expr(ret[0].value)}   -- `{ast.unparse(ret[0].value)}`")
+            NAMES.clear()
+        # StreamBuffer.pop: when `_is_empty` is set; StreamBuffer.drain: when it is cleared before waiting
+        fn = find_def(tree, "StreamBuffer", "pop")
+        tests = [n.test for n in ast.walk(fn) if isinstance(n, ast.If) and any("_is_empty.set" in ast.unparse(b) for b in n.body)]  # type: ignore
+        if len(tests) != 1:
+            fail("bufferPopEmpty", "no single `if …: await self._is_empty.set()` in StreamBuffer.pop")
+        else:
+            NAMES.clear()
+            NAMES.update({"len(self.buffer)": "remaining", "self._complete": "complete"})
+            out.append(f"def bufferPopEmpty (remaining : Nat) (complete : Bool) : Bool :=\n  {expr(tests[0])}   -- `{ast.unparse(tests[0])}`")
+            NAMES.clear()
+        fn = find_def(tree, "StreamBuffer", "drain")
+        tests = [n.test for n in ast.walk(fn) if isinstance(n, ast.If) and any("_is_empty.clear" in ast.unparse(b) for b in n.body)]  # type: ignore
+        waits = [n for n in ast.walk(fn) if isinstance(n, ast.Await) and "_is_empty.wait" in ast.unparse(n)]  # type: ignore
+        if len(tests) != 1 or len(waits) != 1:
+            fail("bufferDrainClears", "StreamBuffer.drain is not `if …: await self._is_empty.clear()` followed by one wait")
+        else:
+            NAMES.clear()
+            NAMES.update({"self._complete": "complete", "self._closed": "closed"})
+            out.append(f"def bufferDrainClears (complete closed : Bool) : Bool :=\n  {expr(tests[0])}   -- `{ast.unparse(tests[0])}`")
+            NAMES.clear()
+        fn = find_def(tree, "H2Protocol", "_send_data")
+        tests = [n.test for n in ast.walk(fn) if isinstance(n, ast.If) and any("end_stream" in ast.unparse(b) for b in n.body)]  # type: ignore
+        if len(tests) != 1:
+            fail("sendDataEnds", "no single `if …: self.connection.end_stream(stream_id)` in H2Protocol._send_data")
+        else:
+            NAMES.clear()
+            NAMES.update({"self.stream_buffers[stream_id].complete": "complete", "self.closed": "closed"})
+            out.append(f"def sendDataEnds (complete closed : Bool) : Bool :=\n  {expr(tests[0])}   -- `{ast.unparse(tests[0])}`")
+            NAMES.clear()
+        # the number of bytes taken: max(0, min(local_flow_control_window, max_outbound_frame_size))
+        assigns = [ast.unparse(n.value).replace(" ", "").replace("\n", "") for n in ast.walk(fn)  # type: ignore
+                   if isinstance(n, ast.Assign) and ast.unparse(n.targets[0]) == "chunk_size"]
+        want = ["min(self.connection.local_flow_control_window(stream_id),self.connection.max_outbound_frame_size)", "max(0,chunk_size)"]
+        if assigns != want:
+            fail("sendDataChunk", f"chunk_size assignments are {assigns}, expected {want}")
+        pops = [ast.unparse(n).replace(" ", "") for n in ast.walk(fn) if isinstance(n, ast.Call) and ast.unparse(n.func).endswith("].pop")]  # type: ignore
+        if pops != ["self.stream_buffers[stream_id].pop(chunk_size)"]:
+            fail("sendDataChunk", f"pop call is {pops}")
+    except Exception as e:
+        fail("bufferComplete/sendDataEnds", str(e))
+    # H11Protocol._maybe_recycle: `await self._close_stream()`, then ONE `if <guard>: <start_next_cycle …> else: …; await self.send(Closed())`;
+    # the guard as a function of its four atoms (C15: no recycling once `context.terminated` is set).  Any other atom (e.g. a
+    # different event of the worker context) is not translated: EXTRACT-FAIL, and the model that uses `h11Recycle` does not build.
+    try:
+        fn = find_def(parse(src / "protocol/h11.py"), "H11Protocol", "_maybe_recycle")
+        body = list(fn.body) if fn is not None else []  # type: ignore
+        ifs = [st for st in body if isinstance(st, ast.If)]
+        if (fn is None or len(body) != 2 or len(ifs) != 1 or body[1] is not ifs[0]
+                or ast.unparse(body[0]) != "await self._close_stream()"
+                or "start_next_cycle" not in ast.unparse(ifs[0].body)
+                or not ifs[0].orelse or ast.unparse(ifs[0].orelse[-1]) != "await self.send(Closed())"
+                or "start_next_cycle" in ast.unparse(ifs[0].orelse)):
+            fail("h11Recycle", "_maybe_recycle is not `await self._close_stream(); if <guard>: …start_next_cycle… else: …; await self.send(Closed())`")
+        else:
+            NAMES.clear()
+            NAMES.update({"self.closed": "closed", "self.context.terminated.is_set()": "terminated",
+                          "self.connection.our_state is h11.DONE": "ourDone", "self.connection.their_state is h11.DONE": "theirDone"})
+            try:
+                out.append(f"def h11Recycle (closed terminated ourDone theirDone : Bool) : Bool :=\n  {expr(ifs[0].test)}"
+                           f"   -- `{' '.join(ast.unparse(ifs[0].test).split())}` in H11Protocol._maybe_recycle")
+            except ValueError as e:
+                fail("h11Recycle", f"the guard of _maybe_recycle has an atom that is not one of {sorted(NAMES)}: {e}")
+            NAMES.clear()
+    except Exception as e:
+        fail("h11Recycle", str(e))
     # suppress_body
     try:
         fn = find_def(parse(src / "utils.py"), "suppress_body")
@@ -416,6 +494,76 @@ def extract_excepts(src: Path) -> str:
     return "\n".join(out)
 
 
+def _calls_in_order(node: Any) -> List[str]:
+    """dotted names of the calls in a statement list, in source order"""
+    out: List[str] = []
+    for st in node if isinstance(node, list) else [node]:
+        calls = [n for n in ast.walk(st) if isinstance(n, ast.Call)]
+        calls.sort(key=lambda n: (n.lineno, n.col_offset))
+        for c in calls:
+            out.append(ast.unparse(c.func))
+    return out
+
+
+def extract_atomic(src: Path) -> str:
+    """Atomicity facts the send-path model (HC/Proto/H2Send.lean) relies on: which `Event` methods of the two workers can
+    suspend, and the statement order inside the pieces of h2.py that the model treats as one step each."""
+    out = ["/- GENERATED by tools/extract.py — suspension points / statement order assumed by HC.Proto.H2Send — do not edit -/",
+           "namespace HC.Extracted.Atomic"]
+    for worker in ("asyncio", "trio"):
+        try:
+            tree = parse(src / worker / "worker_context.py")
+            for meth in ("set", "clear", "wait"):
+                fn = find_def(tree, "EventWrapper", meth)
+                if fn is None:
+                    fail(f"atomic {worker}.{meth}", "EventWrapper method not found")
+                    continue
+                awaits = any(isinstance(n, (ast.Await, ast.AsyncFor, ast.AsyncWith)) for n in ast.walk(fn))
+                out.append(f"def {worker}Event{meth.capitalize()}Suspends : Bool := {'true' if awaits else 'false'}")
+        except Exception as e:
+            fail(f"atomic {worker}", str(e))
+    try:
+        h2tree = parse(src / "protocol/h2.py")
+        fn = find_def(h2tree, "H2Protocol", "stream_send")
+        branches: Dict[str, List[str]] = {}
+        for n in ast.walk(fn):  # type: ignore
+            if isinstance(n, ast.If) and "isinstance(event" in ast.unparse(n.test):
+                branches[ast.unparse(n.test)] = _calls_in_order(n.body)
+
+        def branch(*classes: str) -> Optional[List[str]]:
+            for k, v in branches.items():
+                if all(c in k for c in classes):
+                    return v
+            return None
+
+        body = branch("Body", "Data")
+        end = branch("EndBody", "EndData")
+        closed = branch("StreamClosed")
+        if body is None or end is None or closed is None:
+            fail("atomic stream_send", f"branches not recognised: {list(branches)}")
+        else:
+            out.append("def h2BodyBranch : List String := [" + ", ".join(q(x) for x in body) + "]")
+            out.append("def h2EndBranch : List String := [" + ", ".join(q(x) for x in end) + "]")
+            out.append("def h2ClosedBranch : List String := [" + ", ".join(q(x) for x in closed[:2]) + "]")
+        fn2 = find_def(h2tree, "H2Protocol", "_send_data")
+        tries = [n for n in ast.walk(fn2) if isinstance(n, ast.Try)]  # type: ignore
+        if not tries or len(tries[0].handlers) != 1:       # (ast.walk is breadth-first: tries[0] is the outer try)
+            fail("atomic _send_data", "expected a try with one handler")
+        else:
+            out.append("def h2SendDataTry : List String := [" + ", ".join(q(x) for x in _calls_in_order(tries[0].body)) + "]")
+            out.append("def h2SendDataExcept : List String := [" + ", ".join(q(x) for x in _calls_in_order(tries[0].handlers[0].body)) + "]")
+        fn3 = find_def(h2tree, "H2Protocol", "send_task")
+        out.append("def h2SendTask : List String := [" + ", ".join(q(x) for x in _calls_in_order(fn3.body)) + "]")  # type: ignore
+        fn4 = find_def(h2tree, "StreamBuffer", "push")
+        out.append("def h2BufferPush : List String := [" + ", ".join(q(x) for x in _calls_in_order(fn4.body)) + "]")  # type: ignore
+        fn5 = find_def(h2tree, "StreamBuffer", "close")
+        out.append("def h2BufferClose : List String := [" + ", ".join(q(ast.unparse(st)) for st in fn5.body) + "]")  # type: ignore
+    except Exception as e:
+        fail("atomic stream_send", str(e))
+    out += ["end HC.Extracted.Atomic", ""]
+    return "\n".join(out)
+
+
 def extract_h11_tables(src: Path) -> str:
     """The installed h11's state tables (data, `h11._state`); hypercorn itself is never imported."""
     out = ["/- GENERATED by tools/extract.py from the installed h11 (h11._state tables) — do not edit -/", "namespace HC.Extracted.H11Tables",
@@ -458,6 +606,524 @@ def extract_h11_tables(src: Path) -> str:
     return "\n".join(out)
 
 
+# ---------------------------------------------------------------------------------------------------------
+# C18: configured limits and worker recycling (comparator sites are in Guards; here: where each limit comes from,
+# how the counters move, the h2 settings table, the randint call of both run.py, and the rules of the installed
+# h11 / hpack / h2 the limits rely on)
+# ---------------------------------------------------------------------------------------------------------
+def _aug_incrs(fn: ast.AST, target: str) -> List[ast.AugAssign]:
+    return [n for n in ast.walk(fn) if isinstance(n, ast.AugAssign) and ast.unparse(n.target) == target]
+
+
+def _site_packages_file(module: str, rel: str) -> Path:
+    import importlib.util
+    spec = importlib.util.find_spec(module)
+    if spec is None or not spec.submodule_search_locations:
+        raise ValueError(f"{module} is not installed")
+    return Path(list(spec.submodule_search_locations)[0]) / rel
+
+
+def extract_limits(src: Path) -> str:
+    out = ["/- GENERATED by tools/extract.py — where each configured limit comes from and how it is counted (C18) — do not edit -/",
+           "import HC.Extracted.Guards",
+           "namespace HC.Extracted.Limits",
+           "open HC.Extracted.Guards (Cmp)",
+           "inductive JOp | add | sub | mul\nderiving Repr, DecidableEq"]
+
+    def emit(line: str) -> None:
+        out.append(line)
+
+    # ---- protocol/h11.py ------------------------------------------------------------------------------------
+    try:
+        tree = parse(src / "protocol/h11.py")
+        init = find_def(tree, "H11Protocol", "__init__")
+        call = None
+        for n in ast.walk(init):  # type: ignore
+            if isinstance(n, ast.Call) and ast.unparse(n.func) == "h11.Connection":
+                call = n
+        kws = {k.arg: ast.unparse(k.value) for k in call.keywords} if call is not None else {}
+        m = re.fullmatch(r"self\.config\.(\w+)", kws.get("max_incomplete_event_size", ""))
+        if call is None or m is None or ast.unparse(call.args[0]) != "h11.SERVER":
+            fail("h11LimitSource", "`h11.Connection(h11.SERVER, max_incomplete_event_size=self.config.<attr>)` not found in H11Protocol.__init__")
+        else:
+            emit(f"def h11LimitSource : String := {q(m.group(1))}   -- `{ast.unparse(call)}`")
+        inits = [n for n in ast.walk(init) if isinstance(n, ast.Assign) and ast.unparse(n.targets[0]) == "self.keep_alive_requests"]  # type: ignore
+        if len(inits) != 1 or not isinstance(inits[0].value, ast.Constant) or not isinstance(inits[0].value.value, int):
+            fail("h11CounterInit", "`self.keep_alive_requests = <int>` not found exactly once in H11Protocol.__init__")
+        else:
+            emit(f"def h11CounterInit : Nat := {inits[0].value.value}")
+        cls = find_def(tree, "H11Protocol")
+        incs = _aug_incrs(cls, "self.keep_alive_requests")
+        cs = find_def(tree, "H11Protocol", "_create_stream")
+        own = _aug_incrs(cs, "self.keep_alive_requests")
+        if len(incs) != 1 or len(own) != 1 or not isinstance(own[0].op, ast.Add) or not isinstance(own[0].value, ast.Constant):
+            fail("h11CounterIncr", f"expected exactly one `self.keep_alive_requests += <int>` in H11Protocol, in _create_stream (found {len(incs)} / {len(own)})")
+        else:
+            emit(f"def h11CounterIncr : Nat := {own[0].value.value}   -- in `_create_stream`")
+            # the increment is a top-level statement of _create_stream, after the `await self.stream.handle(Request(...))`
+            body = cs.body  # type: ignore
+            idx_inc = [i for i, st in enumerate(body) if st is own[0]]
+            idx_handle = [i for i, st in enumerate(body) if "self.stream.handle(Request(" in ast.unparse(st).replace("\n", "").replace(" ", "").replace("Request(", "Request(")
+                          or "self.stream.handle(Request(" in "".join(ast.unparse(st).split())]
+            if not idx_inc or not idx_handle:
+                fail("h11IncrAfterHandle", "increment / `await self.stream.handle(Request(...))` are not top-level statements of _create_stream")
+            else:
+                emit(f"def h11IncrAfterHandle : Bool := {'true' if idx_inc[0] > idx_handle[-1] else 'false'}   -- the counter moves after the stream saw the request")
+        # the comparison guards `headers.append((b"connection", b"close"))` inside the `status_code >= 200` branch of stream_send
+        ss = find_def(tree, "H11Protocol", "stream_send")
+        guard = None
+        for n in ast.walk(ss):  # type: ignore
+            if isinstance(n, ast.If) and "keep_alive_max_requests" in ast.unparse(n.test):
+                guard = n
+        if guard is None or len(guard.body) != 1 or guard.orelse or "".join(ast.unparse(guard.body[0]).split()) != "headers.append((b'connection',b'close'))":
+            fail("h11CloseHeader", "`if <keep-alive comparison>: headers.append((b\"connection\", b\"close\"))` not found in stream_send")
+        else:
+            m2 = re.search(r"self\.config\.(\w+)", ast.unparse(guard.test))
+            emit(f"def h11KeepAliveSource : String := {q(m2.group(1) if m2 else '?')}")
+            emit("def h11CloseHeader : String × String := (\"connection\", \"close\")")
+    except Exception as e:
+        fail("limits h11.py", f"{type(e).__name__}: {e}")
+
+    # ---- the installed h11: the incomplete-event rule of next_event() ---------------------------------------------
+    try:
+        conn = parse(_site_packages_file("h11", "_connection.py"))
+        ne = find_def(conn, "Connection", "next_event")
+        rule = None
+        for n in ast.walk(ne):  # type: ignore
+            if isinstance(n, ast.If) and "_max_incomplete_event_size" in ast.unparse(n.test):
+                rule = n
+        ok = (rule is not None and isinstance(rule.test, ast.Compare) and len(rule.test.ops) == 1 and type(rule.test.ops[0]) in CMPNAME
+              and ast.unparse(rule.test.left) == "len(self._receive_buffer)" and ast.unparse(rule.test.comparators[0]) == "self._max_incomplete_event_size")
+        hint = None
+        if ok:
+            for n in ast.walk(rule):
+                if isinstance(n, ast.Raise) and isinstance(n.exc, ast.Call) and ast.unparse(n.exc.func) == "RemoteProtocolError":
+                    for k in n.exc.keywords:
+                        if k.arg == "error_status_hint" and isinstance(k.value, ast.Constant):
+                            hint = k.value.value
+        if not ok or hint is None:
+            fail("h11LibIncompleteCmp", "`if len(self._receive_buffer) > self._max_incomplete_event_size: raise RemoteProtocolError(..., error_status_hint=N)` not found in the installed h11")
+        else:
+            emit(f"def h11LibIncompleteCmp : Cmp := .{CMPNAME[type(rule.test.ops[0])]}   -- installed h11: `{ast.unparse(rule.test)}` (under `if event is NEED_DATA`)")
+            emit(f"def h11LibIncompleteHint : Nat := {hint}")
+    except Exception as e:
+        fail("limits h11 library", f"{type(e).__name__}: {e}")
+
+    # ---- protocol/h2.py -------------------------------------------------------------------------------------
+    try:
+        tree = parse(src / "protocol/h2.py")
+        init = find_def(tree, "H2Protocol", "__init__")
+        table = None
+        dec = frame = None
+        for n in ast.walk(init):  # type: ignore
+            if isinstance(n, ast.Assign) and ast.unparse(n.targets[0]) == "self.connection.local_settings" and isinstance(n.value, ast.Call):
+                for k in n.value.keywords:
+                    if k.arg == "initial_values" and isinstance(k.value, ast.Dict):
+                        table = k.value
+            if isinstance(n, ast.Assign) and ast.unparse(n.targets[0]) == "self.connection.decoder.max_header_list_size":
+                dec = ast.unparse(n.value)
+            if isinstance(n, ast.Assign) and ast.unparse(n.targets[0]) == "self.connection.DEFAULT_MAX_INBOUND_FRAME_SIZE":
+                frame = ast.unparse(n.value)
+        if table is None:
+            fail("h2Settings", "`self.connection.local_settings = h2.settings.Settings(..., initial_values={...})` not found in H2Protocol.__init__")
+        else:
+            rows = []
+            for k, v in zip(table.keys, table.values):
+                code = ast.unparse(k).split(".")[-1]
+                vt = ast.unparse(v)
+                mm = re.fullmatch(r"(?:self\.)?config\.(\w+)", vt)
+                rows.append((code, mm.group(1) if mm else vt))
+            emit("def h2Settings : List (String × String) := [" + ", ".join(f"({q(a)}, {q(b)})" for a, b in rows) + "]   -- SettingCodes.<code> ↦ config.<attr> | literal")
+        mm = re.fullmatch(r"(?:self\.)?config\.(\w+)", dec or "")
+        if mm is None:
+            fail("h2DecoderLimitSource", "`self.connection.decoder.max_header_list_size = config.<attr>` not found in H2Protocol.__init__ (the limit would only be advertised)")
+        else:
+            emit(f"def h2DecoderLimitSource : String := {q(mm.group(1))}   -- the HPACK decoder enforces this value from the first header block")
+        mm = re.fullmatch(r"(?:self\.)?config\.(\w+)", frame or "")
+        emit(f"def h2InboundFrameSizeSource : String := {q(mm.group(1) if mm else '')}   -- assigned to `connection.DEFAULT_MAX_INBOUND_FRAME_SIZE`")
+        inits = [n for n in ast.walk(init) if isinstance(n, ast.Assign) and ast.unparse(n.targets[0]) == "self.keep_alive_requests"]  # type: ignore
+        if len(inits) != 1 or not isinstance(inits[0].value, ast.Constant):
+            fail("h2CounterInit", "`self.keep_alive_requests = <int>` not found exactly once in H2Protocol.__init__")
+        else:
+            emit(f"def h2CounterInit : Nat := {inits[0].value.value}")
+        cls = find_def(tree, "H2Protocol")
+        cs = find_def(tree, "H2Protocol", "_create_stream")
+        sp = find_def(tree, "H2Protocol", "_create_server_push")
+        a, b, c = _aug_incrs(cls, "self.keep_alive_requests"), _aug_incrs(cs, "self.keep_alive_requests"), _aug_incrs(sp, "self.keep_alive_requests")
+        if len(b) != 1 or len(a) != len(b) + len(c) or any(not isinstance(x.op, ast.Add) or not isinstance(x.value, ast.Constant) for x in a):
+            fail("h2CounterIncr", f"unexpected `self.keep_alive_requests += …` sites in H2Protocol ({len(a)} in the class, {len(b)} in _create_stream, {len(c)} in _create_server_push)")
+        else:
+            emit(f"def h2IncrCreateStream : Nat := {b[0].value.value}   -- `_create_stream` (client streams, the h2c stream and pushed streams)")
+            emit(f"def h2IncrServerPushExtra : Nat := {sum(x.value.value for x in c)}   -- further `+=` in `_create_server_push`, which also calls `_create_stream`")
+            pushes_call_create = any(isinstance(n, ast.Call) and ast.unparse(n.func) == "self._create_stream" for n in ast.walk(sp))  # type: ignore
+            emit(f"def h2PushCallsCreateStream : Bool := {'true' if pushes_call_create else 'false'}")
+        # the comparison is a statement of the RequestReceived branch of _handle_events, after the create/refuse if-else, and calls close_connection
+        he = find_def(tree, "H2Protocol", "_handle_events")
+        branch = None
+        for n in ast.walk(he):  # type: ignore
+            if isinstance(n, ast.If) and "RequestReceived" in ast.unparse(n.test):
+                branch = n
+                break
+        shape = None
+        if branch is not None:
+            idx_cmp = [i for i, st in enumerate(branch.body) if isinstance(st, ast.If) and "keep_alive_max_requests" in ast.unparse(st.test)]
+            idx_create = [i for i, st in enumerate(branch.body) if "self._create_stream(event)" in ast.unparse(st)]
+            if len(idx_cmp) == 1 and idx_create:
+                g = branch.body[idx_cmp[0]]
+                acts = [ast.unparse(x) for x in g.body]
+                if acts == ["self.connection.close_connection()"] and not g.orelse:
+                    shape = idx_cmp[0] > idx_create[-1]
+        if shape is None:
+            fail("h2CmpAfterCreate", "`if <keep-alive comparison>: self.connection.close_connection()` after the create/refuse statement of the RequestReceived branch not found")
+        else:
+            emit(f"def h2CmpAfterCreate : Bool := {'true' if shape else 'false'}   -- the request that exceeds the maximum is itself served")
+            emit("def h2LimitAction : String := \"close_connection\"")
+    except Exception as e:
+        fail("limits h2.py", f"{type(e).__name__}: {e}")
+
+    # ---- the installed hpack / h2: header-list accounting and the concurrent-stream rule --------------------------
+    try:
+        tbl = parse(_site_packages_file("hpack", "table.py"))
+        fn = find_def(tbl, "table_entry_size")
+        ret = [s for s in fn.body if isinstance(s, ast.Return)]  # type: ignore
+        txt = "".join(ast.unparse(ret[0].value).split()) if ret else ""
+        mm = re.fullmatch(r"(\d+)\+len\(name\)\+len\(value\)", txt) or re.fullmatch(r"len\(name\)\+len\(value\)\+(\d+)", txt)
+        if mm is None:
+            fail("hpackEntryOverhead", f"table_entry_size returns `{txt}`")
+        else:
+            emit(f"def hpackEntryOverhead : Nat := {mm.group(1)}   -- installed hpack: `{ast.unparse(ret[0].value)}`")
+        hp = parse(_site_packages_file("hpack", "hpack.py"))
+        decode = find_def(hp, "Decoder", "decode")
+        c = find_compare(decode, "max_header_list_size")
+        if c is None or ast.unparse(c.left) != "inflated_size" or ast.unparse(c.comparators[0]) != "self.max_header_list_size":
+            fail("hpackListCmp", "`inflated_size > self.max_header_list_size` not found in the installed hpack Decoder.decode")
+        else:
+            emit(f"def hpackListCmp : Cmp := .{CMPNAME[type(c.ops[0])]}   -- installed hpack: `{ast.unparse(c)}`")
+        h2c = parse(_site_packages_file("h2", "connection.py"))
+        rh = find_def(h2c, "H2Connection", "_receive_headers_frame")
+        c = find_compare(rh, "max_open_streams")
+        src_ok = any(isinstance(n, ast.Assign) and ast.unparse(n.targets[0]) == "max_open_streams"
+                     and ast.unparse(n.value) == "self.local_settings.max_concurrent_streams" for n in ast.walk(rh))  # type: ignore
+        mm = re.fullmatch(r"\(?(\w+)\+(\d+)\)?", "".join(ast.unparse(c.left).split())) if c is not None else None
+        if c is None or mm is None or not src_ok or ast.unparse(c.comparators[0]) != "max_open_streams":
+            fail("h2StreamsCmp", "`(open + 1) > self.local_settings.max_concurrent_streams` not found in the installed h2 _receive_headers_frame")
+        else:
+            emit(f"def h2StreamsCmp : Cmp := .{CMPNAME[type(c.ops[0])]}   -- installed h2: `{ast.unparse(c)}`")
+            emit(f"def h2StreamsLhsPlus : Nat := {mm.group(2)}")
+        dh = find_def(h2c, "_decode_headers")
+        over = [ast.unparse(h.type) for h in ast.walk(dh) if isinstance(h, ast.ExceptHandler) and h.type is not None]  # type: ignore
+        emit(f"def h2OversizeIsConnectionError : Bool := {'true' if 'OversizedHeaderListError' in over else 'false'}   -- `_decode_headers` turns it into DenialOfServiceError")
+    except Exception as e:
+        fail("limits hpack/h2 library", f"{type(e).__name__}: {e}")
+
+    # ---- worker_context.py / run.py of both workers ---------------------------------------------------------------
+    for w in ("asyncio", "trio"):
+        try:
+            tree = parse(src / w / "worker_context.py")
+            mr = find_def(tree, "WorkerContext", "mark_request")
+            body = mr.body  # type: ignore
+            ok = (len(body) == 3 and isinstance(body[0], ast.If) and "".join(ast.unparse(body[0].test).split()) == "self.max_requestsisNone"
+                  and len(body[0].body) == 1 and isinstance(body[0].body[0], ast.Return) and body[0].body[0].value is None
+                  and isinstance(body[1], ast.AugAssign) and ast.unparse(body[1].target) == "self.requests" and isinstance(body[1].op, ast.Add)
+                  and isinstance(body[1].value, ast.Constant)
+                  and isinstance(body[2], ast.If) and [ast.unparse(x) for x in body[2].body] == ["await self.terminate.set()"] and not body[2].orelse)
+            init = find_def(tree, "WorkerContext", "__init__")
+            start = [n for n in ast.walk(init) if isinstance(n, ast.Assign) and ast.unparse(n.targets[0]) == "self.requests"]  # type: ignore
+            keeps = any(isinstance(n, ast.Assign) and ast.unparse(n.targets[0]) == "self.max_requests" and ast.unparse(n.value) == "max_requests"
+                        for n in ast.walk(init))  # type: ignore
+            if not ok or len(start) != 1 or not isinstance(start[0].value, ast.Constant) or not keeps:
+                fail(f"{w}MarkRequest", "mark_request is not `if self.max_requests is None: return; self.requests += k; if <cmp>: await self.terminate.set()`")
+            else:
+                emit(f"def {w}RecycleIncr : Nat := {body[1].value.value}   -- `{ast.unparse(body[1])}` in {w}/worker_context.py")
+                emit(f"def {w}RecycleInit : Nat := {start[0].value.value}")
+                emit(f"def {w}RecycleOffWhenNone : Bool := true   -- `if self.max_requests is None: return`")
+            tree = parse(src / w / "run.py")
+            ws = find_def(tree, "worker_serve")
+            imp = any(isinstance(n, ast.ImportFrom) and n.module == "random" and any(a.name == "randint" and a.asname is None for a in n.names) for n in tree.body)
+            asg = [n for n in ast.walk(ws) if isinstance(n, ast.Assign) and ast.unparse(n.targets[0]) == "max_requests"]  # type: ignore
+            guard = [n for n in ast.walk(ws) if isinstance(n, ast.If) and "".join(ast.unparse(n.test).split()) == "config.max_requestsisnotNone"]  # type: ignore
+            ctxs = [n for n in ast.walk(ws) if isinstance(n, ast.Call) and ast.unparse(n.func) == "WorkerContext"]  # type: ignore
+            shape = None
+            if imp and len(asg) == 2 and len(guard) == 1 and guard[0].body == [asg[1]] and isinstance(asg[0].value, ast.Constant) and asg[0].value.value is None \
+                    and len(ctxs) == 1 and [ast.unparse(a) for a in ctxs[0].args] == ["max_requests"]:
+                v = asg[1].value
+                if isinstance(v, ast.BinOp) and type(v.op) in (ast.Add, ast.Sub, ast.Mult) and ast.unparse(v.left) == "config.max_requests" \
+                        and isinstance(v.right, ast.Call) and ast.unparse(v.right.func) == "randint" and len(v.right.args) == 2 and not v.right.keywords \
+                        and isinstance(v.right.args[0], ast.Constant) and isinstance(v.right.args[0].value, int):
+                    mm = re.fullmatch(r"config\.(\w+)", ast.unparse(v.right.args[1]))
+                    if mm:
+                        shape = ({ast.Add: "add", ast.Sub: "sub", ast.Mult: "mul"}[type(v.op)], v.right.args[0].value, mm.group(1), ast.unparse(v))
+            if shape is None:
+                fail(f"{w}Jitter", "`max_requests = None; if config.max_requests is not None: max_requests = config.max_requests + randint(<int>, config.<attr>); WorkerContext(max_requests)` "
+                                   "(with `from random import randint`) not found in worker_serve")
+            else:
+                emit(f"def {w}JitterOp : JOp := .{shape[0]}   -- `{shape[3]}` in {w}/run.py; random.randint is inclusive at both ends")
+                emit(f"def {w}JitterLo : Nat := {shape[1]}")
+                emit(f"def {w}JitterHiSource : String := {q(shape[2])}")
+                emit(f"def {w}RecycleOffWhenConfigNone : Bool := true   -- `if config.max_requests is not None`")
+        except Exception as e:
+            fail(f"limits {w} worker", f"{type(e).__name__}: {e}")
+    out += ["end HC.Extracted.Limits", ""]
+    return "\n".join(out)
+
+
+def extract_runtime(src: Path) -> str:
+    """The worker-specific primitives (HC/Conn/Shell.lean `Runtime`): read off the two tcp_server.py / worker_context.py files."""
+    out = ["/- GENERATED by tools/extract.py — the two workers' connection shells as `Runtime` records — do not edit -/",
+           "import HC.Conn.Shell", "namespace HC.Extracted.Runtime", "open HC.Conn.Shell"]
+
+    def calls(node: Any) -> List[str]:
+        cs = [n for n in ast.walk(node) if isinstance(n, ast.Call)]
+        cs.sort(key=lambda n: (n.lineno, n.col_offset, -(n.end_col_offset or 0)))     # source order, outer call before its arguments
+        return [ast.unparse(n.func) for n in cs]
+
+    for worker in ("asyncio", "trio"):
+        try:
+            tcp = parse(src / worker / "tcp_server.py")
+            wc = parse(src / worker / "worker_context.py")
+            ps = find_def(tcp, "TCPServer", "protocol_send")
+            rd = find_def(tcp, "TCPServer", "_read_data")
+            cl = find_def(tcp, "TCPServer", "_close")
+            run = find_def(tcp, "TCPServer", "run")
+            isc = find_def(tcp, "TCPServer", "_initiate_server_close")
+            if None in (ps, rd, cl, run, isc):
+                fail(f"runtime {worker}", "TCPServer method missing")
+                continue
+            # protocol_send: the three isinstance branches
+            branches: Dict[str, Any] = {}
+            node: Any = next((n for n in ps.body if isinstance(n, ast.If)), None)  # type: ignore
+            while isinstance(node, ast.If):
+                t = ast.unparse(node.test)
+                for k in ("RawData", "Closed", "Updated"):
+                    if f"isinstance(event, {k})" == t:
+                        branches[k] = node.body
+                node = node.orelse[0] if len(node.orelse) == 1 and isinstance(node.orelse[0], ast.If) else None
+            if set(branches) != {"RawData", "Closed", "Updated"}:
+                fail(f"runtime {worker}", f"protocol_send branches are {sorted(branches)}")
+                continue
+            closed_calls = [c for st in branches["Closed"] for c in calls(st)]
+            if closed_calls[:1] != ["self._close"] or any(c not in ("self._close", "self.protocol.handle", "Closed") for c in closed_calls):
+                fail(f"runtime {worker}", f"protocol_send(Closed) does {closed_calls}")
+            closed_reenters = "self.protocol.handle" in closed_calls
+            handlers = [h for st in branches["RawData"] for h in ast.walk(st) if isinstance(h, ast.ExceptHandler)]
+            write_err_closes = len(handlers) == 1 and [c for st in handlers[0].body for c in calls(st)][:2] == ["self.protocol.handle", "Closed"]
+            upd = branches["Updated"]
+            upd_ok = (len(upd) == 1 and isinstance(upd[0], ast.If) and ast.unparse(upd[0].test) == "event.idle"
+                      and "self.idle_task.restart" in calls(upd[0].body[0]) and "self.idle_task.stop" in calls(upd[0].orelse[0]))
+            if not upd_ok:
+                fail(f"runtime {worker}", "protocol_send(Updated) is not `restart if event.idle else stop`")
+            close_stops_idle = "self.idle_task.stop" in calls(cl)
+            # run(): initiate; restart; _read_data; [stop]
+            seq = [c for c in calls(run) if c in ("self.protocol.initiate", "self.idle_task.restart", "self._read_data", "self.idle_task.stop", "self._close")]
+            order = sorted(((n.lineno, ast.unparse(n.func)) for n in ast.walk(run) if isinstance(n, ast.Call)
+                            and ast.unparse(n.func) in ("self.protocol.initiate", "self.idle_task.restart", "self._read_data", "self.idle_task.stop", "self._close")))
+            names = [x[1] for x in order]
+            if names[:3] != ["self.protocol.initiate", "self.idle_task.restart", "self._read_data"] or names[-1] != "self._close":
+                fail(f"runtime {worker}", f"run() call order is {names}")
+            read_end_stops = names[3:4] == ["self.idle_task.stop"]
+            # _read_data: loop shape
+            loop = next((n for n in rd.body if isinstance(n, ast.While)), None)  # type: ignore
+            if loop is None:
+                fail(f"runtime {worker}", "_read_data has no while loop")
+                continue
+            cond = ast.unparse(loop.test)
+            breaks_on_empty = any(isinstance(n, ast.If) and ast.unparse(n.test).replace('"', "'") == "data == b''" and any(isinstance(b, ast.Break) for b in n.body)
+                                  for n in ast.walk(loop))
+            handles_raw = any(ast.unparse(c) == "self.protocol.handle(RawData(data))" for c in ast.walk(loop) if isinstance(c, ast.Call))
+            after = [ast.unparse(st) for st in rd.body[rd.body.index(loop) + 1:]]  # type: ignore
+            if not handles_raw or after != ["await self.protocol.handle(Closed())"]:
+                fail(f"runtime {worker}", f"_read_data body not recognised (after loop: {after})")
+            if cond == "True" and breaks_on_empty:
+                eof_always = True
+            elif cond == "not self.reader.at_eof()":
+                eof_always = breaks_on_empty
+            else:
+                fail(f"runtime {worker}", f"_read_data loop condition `{cond}` (break on empty read: {breaks_on_empty})")
+                continue
+            isc_calls = [c for c in calls(isc) if c in ("self.protocol.handle", "self.writer.close", "self.stream.aclose")]
+            timer_first = isc_calls[:1] == ["self.protocol.handle"] and len(isc_calls) == 2
+            if len(isc_calls) != 2:
+                fail(f"runtime {worker}", f"_initiate_server_close does {isc_calls}")
+            clear = find_def(wc, "EventWrapper", "clear")
+            clear_src = [ast.unparse(st) for st in clear.body]  # type: ignore
+            if clear_src == ["self._event.clear()"]:
+                replaces = False
+            elif len(clear_src) == 1 and clear_src[0].startswith("self._event = "):
+                replaces = True
+            else:
+                fail(f"runtime {worker}", f"EventWrapper.clear is {clear_src}")
+                continue
+            st_cls = "AsyncioSingleTask" if worker == "asyncio" else "TrioSingleTask"
+            stop = find_def(wc, st_cls, "stop")
+            awaits_cancelled = any(isinstance(n, ast.Await) and ast.unparse(n.value) == "self._handle" for n in ast.walk(stop))  # type: ignore
+            b = lambda x: "true" if x else "false"  # noqa: E731
+            out.append(f"def {worker}Rt : Runtime :=\n  {{ closedReenters := {b(closed_reenters)}, closeStopsIdle := {b(close_stops_idle)}, readEndStopsIdle := {b(read_end_stops)},\n"
+                       f"    eofAlwaysPassedOn := {b(eof_always)}, writeErrorClosesProtocol := {b(write_err_closes)},\n"
+                       f"    timerTellsProtocolFirst := {b(timer_first)}, clearReplaces := {b(replaces)}, stopAwaitsCancelled := {b(awaits_cancelled)} }}")
+        except Exception as e:
+            fail(f"runtime {worker}", f"{type(e).__name__}: {e}")
+    out += ["end HC.Extracted.Runtime", ""]
+    return "\n".join(out)
+
+
+def extract_app_exit(src: Path) -> str:
+    """C05: the shape of `_handle` (try / except / finally around the application call) of both workers as a `TryShape`,
+    and the REQUEST-state branches of `HTTPStream.app_send` as straight-line `BStep` programs (HC/Stream/AppExit.lean
+    holds the interpreters; HC/Props/C05.lean the theorems about these very programs)."""
+    out = ["/- GENERATED by tools/extract.py — shape of `_handle` and of the REQUEST-state branches of HTTPStream.app_send — do not edit -/",
+           "import HC.Stream.AppExit", "namespace HC.Extracted.AppExit", "open HC.Stream.AppExit"]
+
+    def simple(st: ast.stmt, what: str) -> Optional[str]:
+        if isinstance(st, ast.Raise) and st.exc is None:
+            return ".reraise"
+        if isinstance(st, ast.Expr) and isinstance(st.value, ast.Await) and isinstance(st.value.value, ast.Call):
+            call = st.value.value
+            f = ast.unparse(call.func)
+            if f == "config.log.exception":
+                return ".log"
+            if f == "send" and len(call.args) == 1 and not call.keywords and isinstance(call.args[0], ast.Constant) and call.args[0].value is None:
+                return ".sendNone"
+        fail(what, f"statement not recognised: `{ast.unparse(st)[:80]}`")
+        return None
+
+    def simples(stmts: List[ast.stmt], what: str) -> Optional[str]:
+        xs = [simple(st, what) for st in stmts]
+        return None if None in xs else "[" + ", ".join(xs) + "]"  # type: ignore
+
+    def acts(stmts: List[ast.stmt], what: str) -> Optional[str]:
+        res: List[str] = []
+        i = 0
+        while i < len(stmts):
+            st = stmts[i]
+            split = (isinstance(st, ast.Assign) and isinstance(st.value, ast.Call) and isinstance(st.value.func, ast.Attribute)
+                     and st.value.func.attr == "split" and len(st.targets) == 1 and isinstance(st.targets[0], ast.Tuple)
+                     and len(st.targets[0].elts) == 2 and "Cancelled" in ast.unparse(st.value))
+            if split:
+                other = ast.unparse(st.targets[0].elts[1])         # type: ignore
+                nxt = stmts[i + 1] if i + 1 < len(stmts) else None
+                if not isinstance(nxt, ast.If) or ast.unparse(nxt.test) not in (f"{other} is not None", f"{other} is None"):
+                    fail(what, "`… = error.split(Cancelled)` is not followed by `if <other> is [not] None`")
+                    return None
+                thn, els = simples(nxt.body, what), simples(nxt.orelse, what)
+                if thn is None or els is None:
+                    return None
+                if ast.unparse(nxt.test).endswith("is None"):
+                    thn, els = els, thn
+                res.append(f".ifOtherErrors {thn} {els}")
+                i += 2
+                continue
+            s_ = simple(st, what)
+            if s_ is None:
+                return None
+            res.append(f".simple {s_}")
+            i += 1
+        return "[" + ", ".join(res) + "]"
+
+    classes = {"asyncio.CancelledError": ".cancelled", "CancelledError": ".cancelled", "trio.Cancelled": ".cancelled", "Exception": ".exception",
+               "BaseExceptionGroup": ".baseExceptionGroup", "BaseException": ".baseException"}
+    for worker in ("asyncio", "trio"):
+        what = f"{worker} _handle"
+        try:
+            fn = find_def(parse(src / worker / "task_group.py"), "_handle")
+            body = [st for st in fn.body if not (isinstance(st, ast.Expr) and isinstance(st.value, ast.Constant))]  # type: ignore
+            if not body or not isinstance(body[0], ast.Try):
+                fail(what, "body does not start with a try statement")
+                continue
+            t = body[0]
+            app_call = (len(t.body) == 1 and isinstance(t.body[0], ast.Expr) and isinstance(t.body[0].value, ast.Await)
+                        and isinstance(t.body[0].value.value, ast.Call) and ast.unparse(t.body[0].value.value.func) == "app")
+            if not app_call or t.orelse:
+                fail(what, "the try body is not exactly `await app(…)` (or there is an else block)")
+                continue
+            hs: List[str] = []
+            ok = True
+            for h in t.handlers:
+                ts = [None] if h.type is None else (h.type.elts if isinstance(h.type, ast.Tuple) else [h.type])
+                a = acts(h.body, what)
+                if a is None:
+                    ok = False
+                    break
+                for ty in ts:
+                    name = "BaseException" if ty is None else ast.unparse(ty)
+                    if name not in classes:
+                        fail(what, f"except class `{name}` not recognised")
+                        ok = False
+                    else:
+                        hs.append(f"({classes[name]}, {a})")
+            fin, aft = simples(t.finalbody, what), simples(body[1:], what)
+            if not ok or fin is None or aft is None:
+                continue
+            out.append(f"def {worker}Handle : TryShape :=\n  {{ handlers := [{', '.join(hs)}],\n    final := {fin}, after := {aft} }}")
+        except Exception as e:
+            fail(what, f"{type(e).__name__}: {e}")
+
+    # ---- HTTPStream.app_send: the branches guarded by `self.state == ASGIHTTPState.REQUEST`
+    try:
+        fn = find_def(parse(src / "protocol/http_stream.py"), "HTTPStream", "app_send")
+        wanted = {"http.response.start": "httpStartBranch", "http.response.trailers": "httpTrailersStartBranch",
+                  "http.response.early_hint": "httpEarlyHintBranch"}
+        found: Dict[str, str] = {}
+
+        def lin(stmts: List[ast.stmt], what: str, acc: List[str]) -> bool:
+            for st in stmts:
+                if isinstance(st, (ast.For, ast.If)):
+                    if not lin(st.body, what, acc) or not lin(st.orelse, what, acc):
+                        return False
+                elif isinstance(st, ast.Break):
+                    continue
+                elif isinstance(st, ast.Assign) and len(st.targets) == 1:
+                    tgt, val = ast.unparse(st.targets[0]), ast.unparse(st.value)
+                    if tgt == "self.state" and val.startswith("ASGIHTTPState."):
+                        acc.append(f".setState .{val.split('.')[1].lower()}")
+                    elif tgt == "self.response":
+                        acc.append(".assignResponse")
+                    elif "build_and_validate_headers(" in val or "validate_header_part(" in val:
+                        acc.append(".validate")
+                    else:
+                        fail(what, f"assignment not recognised: `{ast.unparse(st)[:80]}`")
+                        return False
+                elif isinstance(st, ast.Expr) and isinstance(st.value, ast.Await) and isinstance(st.value.value, ast.Call):
+                    call = st.value.value
+                    f = ast.unparse(call.func)
+                    arg = ast.unparse(call.args[0].func) if call.args and isinstance(call.args[0], ast.Call) else ""
+                    if f == "self.send" and arg == "Response":
+                        acc.append(".sendResponse")
+                    elif f == "self.send" and arg == "InformationalResponse":
+                        acc.append(".sendInfo")
+                    elif f == "self._send_closed":
+                        acc.append(".sendClosed")
+                    else:
+                        fail(what, f"call not recognised: `{ast.unparse(st)[:80]}`")
+                        return False
+                else:
+                    fail(what, f"statement not recognised: `{ast.unparse(st)[:80]}`")
+                    return False
+            return True
+
+        for n in ast.walk(fn):  # type: ignore
+            if not isinstance(n, ast.If):
+                continue
+            test = ast.unparse(n.test)
+            if "self.state == ASGIHTTPState.REQUEST" not in test:
+                continue
+            for mtype, lean in wanted.items():
+                if f"message['type'] == '{mtype}'" in test:
+                    acc: List[str] = []
+                    if lean in found:
+                        fail(f"app_send {mtype}", "two REQUEST-state branches for this message type")
+                    elif lin(n.body, f"app_send {mtype}", acc):
+                        found[lean] = "[" + ", ".join(acc) + "]"
+        for mtype, lean in wanted.items():
+            if lean in found:
+                out.append(f"def {lean} : List BStep := {found[lean]}")
+            elif not any(f"app_send {mtype}" in x for x in FAILS):
+                fail(f"app_send {mtype}", "REQUEST-state branch not found")
+    except Exception as e:
+        fail("app_send", f"{type(e).__name__}: {e}")
+    out += ["end HC.Extracted.AppExit", ""]
+    return "\n".join(out)
+
+
 def main() -> int:
     ap = argparse.ArgumentParser()
     ap.add_argument("--repo", default="/repo")
@@ -467,7 +1133,8 @@ def main() -> int:
     outd = Path(a.out)
     outd.mkdir(parents=True, exist_ok=True)
     for name, fn in [("Cli", extract_cli), ("Consts", extract_consts), ("Guards", extract_guards), ("Excepts", extract_excepts),
-                     ("H11Tables", extract_h11_tables)]:
+                     ("H11Tables", extract_h11_tables), ("Limits", extract_limits), ("Atomic", extract_atomic), ("Runtime", extract_runtime),
+                     ("AppExit", extract_app_exit)]:
         CURRENT[0] = name
         try:
             text = fn(src)
@@ -476,6 +1143,31 @@ def main() -> int:
             continue
         changed = write_if_changed(outd / f"{name}.lean", text)
         print(f"EXTRACT {name}.lean {'updated' if changed else 'unchanged'}")
+    # C04: per-`try` exception sites etc. (tools/extract_c04.py, which uses this module's helpers)
+    CURRENT[0] = "C04Sites"
+    try:
+        sys.path.insert(0, str(Path(__file__).resolve().parent))
+        import extract_c04
+        changed = write_if_changed(outd / "C04Sites.lean", extract_c04.run(src, sys.modules[__name__]))
+        print(f"EXTRACT C04Sites.lean {'updated' if changed else 'unchanged'}")
+    except Exception as e:
+        fail("C04Sites", f"{type(e).__name__}: {e}")
+    # C03 / C07: guards, statement orders and Updated(idle=..) sites of the connection model (tools/extract_conn.py)
+    CURRENT[0] = "ConnGuards"
+    try:
+        import extract_conn
+        changed = write_if_changed(outd / "ConnGuards.lean", extract_conn.run(src, sys.modules[__name__]))
+        print(f"EXTRACT ConnGuards.lean {'updated' if changed else 'unchanged'}")
+    except Exception as e:
+        fail("ConnGuards", f"{type(e).__name__}: {e}")
+    # C01 / C02: host-header test of valid_server_name, DATA acknowledgement paths, _window_updated tests (tools/extract_req.py)
+    CURRENT[0] = "ReqGlue"
+    try:
+        import extract_req
+        changed = write_if_changed(outd / "ReqGlue.lean", extract_req.run(src, sys.modules[__name__]))
+        print(f"EXTRACT ReqGlue.lean {'updated' if changed else 'unchanged'}")
+    except Exception as e:
+        fail("ReqGlue", f"{type(e).__name__}: {e}")
     for f in FAILS:
         print(f)
     return 1 if FAILS else 0
